@@ -740,10 +740,52 @@ theorem certblock_v21_ca_parse_canonical (pointOk : Bytes → Bool) (data : Byte
       (leDec ((data.drop 8).take 4) = 12 + n → exportV21Block cb = .ok (data.take (12 + n))) :=
   parseV21Block_ca_inv c pointOk data cb h hca hl hhl hfull
 
+/-- ISK certificate, ANY input `IskCertificate.parse(data, signature_size)` accepts in the normal (offset-carrying) format: if the input's flags
+    word is the one the constructor recomputes from user data and key, nothing lies between user data and signature and the signature has its
+    full non-zero length, then re-exporting gives exactly the first `signature_offset + signature_size` input bytes (which exist) -/
+theorem isk_parse_canonical (pointOk : Bytes → Bool) (data : Bytes) (sigSize : Nat) (i : IskCert)
+    (h : iskParse pointOk data sigSize = .ok i) (hoff : leDec (data.take 4) % 65536 ≠ Gen.iskNoOffsetMagic)
+    (hfl : leDec ((data.drop 8).take 4) = i.flags) (hso : leDec (data.take 4) = 12 + i.pubKey.length + i.userData.length)
+    (hsig : i.signature.length = sigSize) (hs0 : 0 < sigSize) :
+    iskExport i = .ok (data.take (leDec (data.take 4) + sigSize)) ∧ i.offsetPresent = true ∧ leDec (data.take 4) + sigSize ≤ data.length :=
+  iskParse_inv pointOk data sigSize i h hoff hfl hso hsig hs0
+
+/-- certificate block v2.1 WITH ISK certificate, ANY accepted input (shorter than 4 GiB) with a complete root key record without the CA flag:
+    an ISK certificate is parsed from the bytes after the record (signature size = 2 × hash length); if it is in canonical form (hypotheses of
+    `isk_parse_canonical`), re-exporting the block gives `chdr ‖ minor ‖ major ‖ recomputed size ‖ record ‖ certificate` - exactly the first
+    `12 + n + m` input bytes when the input's size word had that value.  Together with `certblock_v21_ca_parse_canonical` this is the canonical
+    form of every v2.1 block.  The plain statement is false (size word, ISK flags word, gap and short signature are not checked by the parser). -/
+theorem certblock_v21_isk_parse_canonical (pointOk : Bytes → Bool) (data : Bytes) (cb : CertBlockV21)
+    (h : parseV21Block c pointOk data = .ok cb) (hca : rkrCa (leDec ((data.drop 12).take 4)) = false) (hl : Nat)
+    (hhl : lookupOr Generated.RotTypes.rkrParseHashLen (rkrCurve (leDec ((data.drop 12).take 4))) = .ok hl)
+    (hfull : 12 + 4 + (if rkrCount (leDec ((data.drop 12).take 4)) > 1 then hl * rkrCount (leDec ((data.drop 12).take 4)) else 0) + hl * 2
+      ≤ data.length) (hdl : data.length < 2 ^ 32) :
+    ∃ n i, cb.isk = some i ∧ n = 4 + (if rkrCount cb.rkr.flags > 1 then hl * rkrCount cb.rkr.flags else 0) + hl * 2 ∧
+      iskParse pointOk (data.drop (12 + n)) (hl * 2) = .ok i ∧
+      (leDec ((data.drop (12 + n)).take 4) % 65536 ≠ Gen.iskNoOffsetMagic →
+       leDec (((data.drop (12 + n)).drop 8).take 4) = i.flags →
+       leDec ((data.drop (12 + n)).take 4) = 12 + i.pubKey.length + i.userData.length →
+       i.signature.length = hl * 2 →
+        exportV21Block cb = .ok (Gen.cbV21Magic ++ leEnc 2 cb.minor ++ leEnc 2 cb.major ++
+          leEnc 4 (12 + n + (leDec ((data.drop (12 + n)).take 4) + hl * 2)) ++
+          (data.drop 12).take (n + (leDec ((data.drop (12 + n)).take 4) + hl * 2))) ∧
+        (leDec ((data.drop 8).take 4) = 12 + n + (leDec ((data.drop (12 + n)).take 4) + hl * 2) →
+          exportV21Block cb = .ok (data.take (12 + n + (leDec ((data.drop (12 + n)).take 4) + hl * 2))))) :=
+  parseV21Block_isk_inv c pointOk data cb h hca hl hhl hfull hdl
+
+/-- non-vacuity of the ISK hypotheses: the exported form of the well-formed certificate `iskEx'` (P-256 key bytes, 4 bytes of user data) -/
+def iskEx' : IskCert :=
+  { offsetPresent := true, constraints := 1, flags := 2 ^ 31 + 1, pubKey := List.replicate 64 1, userData := [1, 2, 3, 4],
+    signature := List.replicate 64 9 }
+set_option maxRecDepth 20000 in
+example : iskParse (fun _ => true) (iskBytes iskEx') 64 = .ok iskEx' ∧
+    leDec ((iskBytes iskEx').take 4) % 65536 ≠ Gen.iskNoOffsetMagic ∧ leDec (((iskBytes iskEx').drop 8).take 4) = iskEx'.flags ∧
+    leDec ((iskBytes iskEx').take 4) = 12 + iskEx'.pubKey.length + iskEx'.userData.length ∧ iskEx'.signature.length = 64 :=
+  ⟨rfl, by decide, by decide, by decide, by decide⟩
+
 /-- The plain statement `parse b = ok cb → export cb = b` is FALSE for v2.1 as well: the parser never looks at the `cert_block_size` word, the
     export recomputes it (observed on the real classes by the stream `parse_canonical`: a CA block with another size word is accepted and
-    re-exported with the recomputed word).  With an ISK certificate further hypotheses would be needed (canonical ISK flags word, no gap before
-    the signature, full-length signature) - not proved here.  Non-vacuity of the hypotheses of the two theorems above: a block with the CA
+    re-exported with the recomputed word); with an ISK certificate the further hypotheses of `certblock_v21_isk_parse_canonical` are needed.  Non-vacuity of the hypotheses of the two theorems above: a block with the CA
     flag, one P-256 key and a size word of 0 -/
 def cb21RawEx : Bytes :=
   [0x63, 0x68, 0x64, 0x72, 1, 0, 2, 0, 0, 0, 0, 0] ++ [0x11, 0, 0, 0x80] ++ List.replicate 64 5
